@@ -1,5 +1,5 @@
 """Data behind MANIFEST.json (python -m harness.mkmanifest regenerates the file)."""
-HOOK_COMMITS = ["ff69824", "ddbcc8f", "c479263", "9cee36a"]
+HOOK_COMMITS = ["ff69824", "ddbcc8f", "c479263", "9cee36a", "95e5268"]
 
 ENGINES = [
     {"name": "E1 sched-trace", "path": "spec/TraceSched.tla + spec/SchedCore.tla + harness/e1.py",
@@ -11,6 +11,10 @@ ENGINES = [
     {"name": "E4 algebra", "path": "spec/Algebra.tla + harness/algrun.py + harness/props_alg.py",
      "serves_properties": ["C13", "C17"],
      "kind_free_text": "laws ASSUMEd and checked by TLC; recorded calls of compiled and pure implementations validated against the operators"},
+    {"name": "E6 outcome", "path": "spec/Outcome.tla + spec/MC_Total.tla + harness/props_c11.py", "serves_properties": ["C11"],
+     "kind_free_text": "liveness / step bound of Sched.tla by TLC; observed pipeline outcomes classified by TLC"},
+    {"name": "E7 session", "path": "spec/Session.tla + harness/sessionrun.py + harness/props_c12.py", "serves_properties": ["C12"],
+     "kind_free_text": "spec -> code: TLC-enumerated call histories replayed in one interpreter"},
     {"name": "E5 relate", "path": "spec/Relate.tla + harness/props_rel.py",
      "serves_properties": ["C09", "C14", "C15", "C16"],
      "kind_free_text": "relational obligations between traced runs decided by TLC"},
@@ -87,9 +91,20 @@ CLAIMS.update({
             "note": "trusted: TLC, CPython datetime; exhaustive within the stated bounds"},
 })
 
+CLAIMS.update({
+    "C11": {"engine": "E6 outcome", "design_ref": "DESIGN.md 5/C11", "category": "model_checking",
+            "technique": "TLC: Sched.tla over a universe with cycles / unreachable bounds / dead resources (Inv11, <>Terminated under WF, step bound); code side: model-driven fault enumeration classified by Outcome.tla + TraceSched C11 flags",
+            "text": "spec: every behaviour of Sched terminates within |tasks|*(N+3)+c steps leaving every leaf scheduled in the horizon or unscheduled; code: infeasible grammatical projects and corrupted texts must end as Reject (no schedule event) or Schedule (within a bound proportional to tasks x horizon slots, every leaf scheduled in horizon or warned), never crash / hang",
+            "note": "trusted: TLC, runner alarm (SIGALRM) for hangs; bound is a wall-clock budget 20 s + 50 us x tasks x slots, capped by the tooling at 90 s / 400 s; declared horizons over 10 years are not generated"},
+    "C12": {"engine": "E7 session", "design_ref": "DESIGN.md 5/C12",
+            "technique": "TLC enumerates every API call history of Session.tla; each is replayed in one shared interpreter; observations compared with fresh-process observations by Relate.tla",
+            "text": "all histories up to length 4 (5 sampled) over parse / parse-only / repeated schedule / report / CLI path and a rejected text, under 3 hash seeds, with and without extensions, shared and fresh parser objects; SessionMut.cfg shows the model is not vacuous",
+            "note": "trusted: TLC, subprocess isolation for the fresh-process reference; the texts are two fixed shapes (inheritance-heavy DAG; limits + scenarios) per seed"},
+})
+
 _PENDING = "check under construction in this build round (see DESIGN.md 9.1); not claimed until it runs clean"
 NOT_APPLICABLE = [{"property_id": p, "reason": _PENDING} for p in
-                  ("C11", "C12", "C18", "C19", "C20")]
+                  ("C18", "C19", "C20")]
 
 NOTES = ("Single entry point ./check <id> --tier quick|thorough [--replay path]. exit 0 held / 1 VIOLATION line / 2 machinery failure. "
          "Known findings: known_findings.json (open entries print KNOWN-FINDING and are excluded from the main exploration by class).")
